@@ -25,12 +25,11 @@ pub fn fix_fn_param_idents(sig: &mut syn::Signature) {
         return;
     }
 
-    if !lift_inner_pat_idents(sig).is_ok() {
-        autogenerate_for_non_idents(sig);
+    if lift_inner_pat_idents(sig).is_ok() {
+        return;
     }
 
-    // a lifted or generated name may coincide with the function's own name as well
-    fix_ident_conflicts(sig);
+    autogenerate_for_non_idents(sig);
 }
 
 fn fix_ident_conflicts(sig: &mut syn::Signature) -> ParamStatus {
@@ -60,7 +59,7 @@ fn fix_ident_conflicts(sig: &mut syn::Signature) -> ParamStatus {
 }
 
 fn lift_inner_pat_idents(sig: &mut syn::Signature) -> ParamStatus {
-    fn try_lift_unambiguous_inner(pat: &mut syn::Pat) -> ParamStatus {
+    fn try_lift_unambiguous_inner(pat: &mut syn::Pat, fn_ident: &syn::Ident) -> ParamStatus {
         struct PatIdentSearcher {
             first_binding_pat_ident: Option<syn::Ident>,
             binding_pat_count: usize,
@@ -89,7 +88,10 @@ fn lift_inner_pat_idents(sig: &mut syn::Signature) -> ParamStatus {
 
         searcher.visit_pat_mut(pat);
 
-        if searcher.binding_pat_count == 1 {
+        // a binding named like the function would shadow the function in the delegating body
+        let shadows_fn = searcher.first_binding_pat_ident.as_ref() == Some(fn_ident);
+
+        if searcher.binding_pat_count == 1 && !shadows_fn {
             let ident = searcher.first_binding_pat_ident;
             *pat = syn::parse_quote! { #ident };
 
@@ -100,13 +102,14 @@ fn lift_inner_pat_idents(sig: &mut syn::Signature) -> ParamStatus {
     }
 
     let mut status = ParamStatus::Ok;
+    let fn_ident = sig.ident.clone();
 
     for fn_arg in &mut sig.inputs {
         let param_status = match fn_arg {
             syn::FnArg::Receiver(_) => ParamStatus::Ok,
             syn::FnArg::Typed(pat_type) => match pat_type.pat.as_mut() {
                 syn::Pat::Ident(_) => ParamStatus::Ok,
-                pat => try_lift_unambiguous_inner(pat),
+                pat => try_lift_unambiguous_inner(pat, &fn_ident),
             },
         };
 
@@ -128,6 +131,9 @@ fn autogenerate_for_non_idents(sig: &mut syn::Signature) {
             },
         })
         .collect();
+
+    // a generated name must not shadow the function either
+    taken_idents.insert(sig.ident.to_string());
 
     fn generate_ident(index: usize, attempts: usize, taken_idents: &mut HashSet<String>) -> String {
         let ident = format!(
